@@ -196,6 +196,8 @@ struct Src<'a> {
 	req_out: Box<dyn Fn(u64) -> bool + 'a>,
 	/// (output pmmr root, bitmap root, rangeproof root, kernel root) when known
 	roots: Option<(Hash, Hash, Hash, Hash)>,
+	/// the source's unspent output leaf indices at the archive header, ascending, when known
+	unspent: Option<Vec<u64>>,
 }
 
 /// synthetic MMRs over `n_out` outputs (+ range proofs) and `n_ker` kernels, a leaf set, the bitmap
@@ -266,6 +268,17 @@ impl Synth {
 				"sparse" => rng.below(8) == 0,
 				"only-last" => false,
 				"runs" => (i / 4) % 2 == 0,
+				// a 1024-aligned run of 1024 (zero-run) / 2048 (zero-run2) outputs fully spent: all-zero
+				// chunk(s) in the MIDDLE of the bitmap, unspent outputs before (if any) and after
+				"zero-run" => {
+					let c = ((n_out - 1) / 1024).saturating_sub(1);
+					i / 1024 != c && rng.below(10) < 8
+				}
+				"zero-run2" => {
+					let c = ((n_out - 1) / 1024).saturating_sub(2);
+					i / 1024 != c && i / 1024 != c + 1 && rng.below(10) < 8
+				}
+				"zero-first" => i / 1024 != 0 && rng.below(10) < 8,
 				_ => true,
 			};
 			if keep {
@@ -305,7 +318,7 @@ impl Synth {
 			let i = pmmr::n_leaves(pos0 + 1) - 1;
 			self.unspent.contains(&i) || self.unspent.contains(&(i ^ 1)) || pos0 + 1 == out_size
 		};
-		Src { fetch: Box::new(fetch), leaves: [(self.n_out + 1023) / 1024, self.n_out, self.n_out, self.n_ker], req_out: Box::new(req), roots: Some(self.roots) }
+		Src { fetch: Box::new(fetch), leaves: [(self.n_out + 1023) / 1024, self.n_out, self.n_out, self.n_ker], req_out: Box::new(req), roots: Some(self.roots), unspent: Some(self.unspent.iter().cloned().collect()) }
 	}
 }
 
@@ -683,6 +696,15 @@ fn run_receiver(
 		return false;
 	}
 	st.inc("receivers-complete");
+	// what StateSync does next: the leaf sets are brought in line with the bitmap derived from the
+	// accumulator (`bitmap_cache`) — also for the genesis leaf, which the segment application skips
+	if src.unspent.is_some() {
+		match catch(AssertUnwindSafe(|| d.check_update_leaf_set_state())) {
+			Ok(Ok(())) => {}
+			Ok(Err(e)) => out.raw(&format!("#ORACLE-FAIL C16 deseg {}: check_update_leaf_set_state failed: {}", tag, error_class(&e))),
+			Err(m) => out.raw(&format!("#ORACLE-FAIL C16 deseg {}: check_update_leaf_set_state panicked: {}", tag, m)),
+		}
+	}
 	drop(guard);
 	// --- the rebuilt MMRs are the source's
 	if let Some((o, b, r, k)) = src.roots {
@@ -699,6 +721,58 @@ fn run_receiver(
 				}
 			}
 			Err(e) => out.raw(&format!("#ORACLE-FAIL C16 deseg {}: roots() failed after completion: {}", tag, error_class(&e))),
+		}
+	}
+	// --- the rebuilt UNSPENT SET is the source's: the output (and rangeproof) leaf set the receiver
+	// ends with — built leaf by leaf from the bitmap derived from the accumulator (bitmap_cache) — and
+	// the raw bitmap derived from the receiver's own accumulator, element by element
+	if let Some(want) = &src.unspent {
+		let chain = dest.c();
+		let hp = chain.header_pmmr();
+		let ts = chain.txhashset();
+		let mut header_pmmr = hp.write();
+		let mut txhashset = ts.write();
+		let got = grin_chain::txhashset::extending_readonly(&mut header_pmmr, &mut txhashset, |ext, _batch| {
+			let o: Vec<u64> = ext.extension.output_readonly_pmmr().leaf_idx_iter(0).collect();
+			let r: Vec<u64> = ext.extension.rproof_readonly_pmmr().leaf_idx_iter(0).collect();
+			let b: Vec<u64> = ext.extension.bitmap_accumulator().as_bitmap()?.iter().map(|x| x as u64).collect();
+			Ok((o, r, b))
+		});
+		match got {
+			Ok((o, r, b)) => {
+				let diff = |a: &Vec<u64>| -> String {
+					let sa: BTreeSet<u64> = a.iter().cloned().collect();
+					let sw: BTreeSet<u64> = want.iter().cloned().collect();
+					format!(
+						"{} entries instead of {}; unspent at the receiver only {:?}; at the source only {:?}",
+						a.len(),
+						want.len(),
+						sa.difference(&sw).take(6).collect::<Vec<_>>(),
+						sw.difference(&sa).take(6).collect::<Vec<_>>()
+					)
+				};
+				let mut ok = true;
+				for (name, v) in [("output leaf set", &o), ("rangeproof leaf set", &r), ("bitmap derived from the accumulator (as_bitmap)", &b)] {
+					if v != want {
+						ok = false;
+						out.raw(&format!(
+							"#ORACLE-FAIL C16 deseg {}: complete, but the receiver's {} is not the source's unspent set: {}",
+							tag, name, diff(v)
+						));
+					}
+				}
+				if ok {
+					st.inc("receivers-with-the-source's-unspent-set");
+					let nl = pmmr::n_leaves(ah.output_mmr_size);
+					let zero_mid = (0..(nl / 1024)).any(|c| {
+						want.iter().all(|x| *x / 1024 != c) && want.iter().any(|x| *x / 1024 > c)
+					});
+					if zero_mid {
+						st.inc("receivers-with-the-source's-unspent-set:all-zero-chunk-before-unspent-outputs");
+					}
+				}
+			}
+			Err(e) => out.raw(&format!("#ORACLE-FAIL C16 deseg {}: reading the receiver's leaf sets after completion failed: {}", tag, error_class(&e))),
 		}
 	}
 	true
@@ -742,10 +816,20 @@ fn synth_mode(out: &mut Out, rng: &mut Rng, thorough: bool) {
 	};
 	let n_small = sizes.len();
 	sizes.extend_from_slice(&big);
+	// all-zero chunks in the middle of the bitmap (the derived bitmap `as_bitmap()` feeds bitmap_cache)
+	let zero_cases: Vec<(u64, u64, &str)> = if thorough {
+		vec![(1025, 3, "zero-first"), (2049, 5, "zero-run"), (2050, 4, "zero-first"), (3073, 6, "zero-run"), (3500, 9, "zero-run2"), (4097, 7, "zero-run2"), (4200, 3, "zero-run"), (5121, 8, "zero-run2")]
+	} else {
+		vec![(1025, 3, "zero-first"), (2049, 5, "zero-run"), (3073, 6, "zero-run"), (3500, 9, "zero-run2")]
+	};
+	let n_plain = sizes.len();
+	for (a, b, _) in &zero_cases {
+		sizes.push((*a, *b));
+	}
 	let small_heights: [(u8, u8, u8, u8); 8] = [(0, 1, 1, 1), (0, 2, 2, 1), (1, 2, 2, 2), (0, 3, 3, 2), (1, 1, 2, 3), (2, 4, 4, 4), (0, 2, 1, 2), (0, 5, 3, 1)];
 	let mut rcv = 0u64;
 	for (si, (n_out, n_ker)) in sizes.iter().enumerate() {
-		let leafset = ["dense", "sparse", "only-last", "runs", "all"][si % 5];
+		let leafset = if si >= n_plain { zero_cases[si - n_plain].2 } else { ["dense", "sparse", "only-last", "runs", "all"][si % 5] };
 		let s = Synth::new(&kit, rng, *n_out, *n_ker, leafset);
 		let src = s.src();
 		let reps = if si < n_small { if thorough { 5 } else { 1 } } else if thorough { 2 } else { 1 };
@@ -933,6 +1017,11 @@ fn chain_mode(out: &mut Out, rng: &mut Rng, thorough: bool) {
 					leaves: [n_chunks, n_out, n_out, n_ker],
 					req_out: Box::new(req),
 					roots: twin_roots.as_ref().map(|r| (r.output_roots.pmmr_root, r.output_roots.bitmap_root, r.rproof_root, r.kernel_root)),
+					unspent: Some({
+						let mut v: Vec<u64> = unspent_idx.iter().cloned().collect();
+						v.sort_unstable();
+						v
+					}),
 				};
 				run_receiver(out, &mut st, rng, &tag, &dest, &ah, heights, &src, &plan, true);
 			}
